@@ -310,8 +310,9 @@ def check(run):
     ea, ed = A.escape_tables(), D.escape_tables()
     for v, q in (("CharLiteral", 39), ("StringLiteral", 34)):
         a = explicit[v]
-        fmts = [n.get("src", "") for n in walk(a["body"]) if n.get("src") and "format!" in n.get("src", "")]
-        okf = all(re.search(r'format!\(\s*"\\\\x\{value:02X\}"\s*\)', s) for s in fmts) and len(fmts) >= 1
+        # whichever formatting macro writes it (format!, write!, ..): the template that starts with `\x` pads to exactly two hex digits
+        fmts = sorted(set(t for n in walk(a["body"]) if n.get("src") for t in re.findall(r'"((?:[^"\\]|\\.)*)"', n.get("src", "")) if t.startswith("\\\\x")))
+        okf = all(re.fullmatch(r'\\\\x\{\w*:02[Xx]\}', t) for t in fmts) and len(fmts) >= 1
         run.ob("R4-ESCAPES", "%s|hex-format" % v, okf and 120 in ea[q] and 120 in ed[q], F.where(fz, a),
                "hex escapes must be written as \\\\x{value:02X}: %s" % fmts)
         esc = [c for c in hirq.calls(a["body"]) if (hirq.callee(c) or "").endswith("escape_default")]
